@@ -477,10 +477,17 @@ pub struct Gen {
     pub rng: Rng,
     pub malformed: bool,
     pub frag_bias: bool,
+    /// now and then one write larger than the whole file (growth beyond doubling, relocation to the end of the file)
+    pub huge: bool,
+    /// now and then a removal while another handle to the region is alive (refused; must change nothing) in the MIDDLE of a case
+    pub held: bool,
 }
 
 impl Gen {
     fn size(&mut self) -> usize {
+        if self.huge && self.rng.chance(1, 9) {
+            return 1_100_000 + self.rng.below(2_000_000) as usize;
+        }
         if self.rng.chance(1, 4) {
             self.rng.below(12000) as usize
         } else {
@@ -499,6 +506,9 @@ impl Gen {
                 let n = if r.chance(1, 2) { n.clone() } else { r.pick(&absent).clone() };
                 return format!("create {}", hex(&n));
             }
+        }
+        if self.held && r.chance(1, 12) && !live.is_empty() {
+            return format!("remove_held {}", hex(&r.pick(&live)[..]));
         }
         if self.malformed && r.chance(1, 4) && !live.is_empty() {
             let id = r.pick(&live).clone();
@@ -601,6 +611,7 @@ pub fn main(args: &Args) -> i32 {
             let first_case = args.num("--first-case", 0);
             let malformed = args.flag("--malformed");
             let held = args.flag("--held"); // open stream: include the known refused-removal pattern
+            let huge = args.flag("--huge");
             let mut ops_out = std::io::BufWriter::new(std::fs::File::create(args.get("--ops").unwrap()).unwrap());
             let mut impl_out = std::io::BufWriter::new(std::fs::File::create(args.get("--out").unwrap()).unwrap());
             use std::io::Write;
@@ -611,6 +622,8 @@ pub fn main(args: &Args) -> i32 {
                     rng: Rng::new(seed.wrapping_mul(1_000_003).wrapping_add(case_no)),
                     malformed,
                     frag_bias: case_no % 3 == 1,
+                    huge,
+                    held: held && args.flag("--held-anywhere"),
                 };
                 let line = format!("case {case_no}");
                 writeln!(ops_out, "{line}").unwrap();
